@@ -1,9 +1,9 @@
 /-
-Color488Code, square sizes `L ≥ 1`: overlaps of two faces.  With `e = ((bx − ax) % 8L, (by − ay) % 8L)`
-the wrapped corner `a + d` of the face `a` is a corner of the face `b` iff `e = d − d'` (mod 8L) for
+Color488Code, all sizes `Lx, Ly ≥ 1`: overlaps of two faces.  With `e = ((bx − ax) % 8Lx, (by − ay) % 8Ly)`
+the wrapped corner `a + d` of the face `a` is a corner of the face `b` iff `e = d − d'` (mod the periods) for
 a delta `d'` of `b`; as `e ≡ 0 (mod 4)` only the differences `0, ±4` occur, and the corners of `a`
 fall into pairs with the same condition: two faces share an even number of qubits (0, 2, 4, 8 —
-all 8 for the two octagons of `L = 1`).  The membership lemmas are generated (one per corner and
+all 8 for the two octagons of `Lx = Ly = 1`).  The membership lemmas are generated (one per corner and
 per type of `b`).  Core Lean only.
 -/
 import PanqecVerif.Proofs.LatColor488CodeA
@@ -23,296 +23,320 @@ theorem interCount_8 (c1 c2 c3 c4 c5 c6 c7 c8 : Coord) (B : List Coord) :
   omega
 
 section
-variable {L : Nat} {ax ay bx by' : Int}
+variable {Lx Ly : Nat} {ax ay bx by' : Int}
 
-theorem oo1 (hL : 1 ≤ L) (h4x : ((bx - ax) % (8 * (L : Int))) % 4 = 0)
-    (h4y : ((by' - ay) % (8 * (L : Int))) % 4 = 0) :
-    [(ax + 1) % (8 * (L : Int)), (ay + -3) % (8 * (L : Int))] ∈ ocC L bx by' ↔
-      (((bx - ax) % (8 * (L : Int)) = 0 ∧ (by' - ay) % (8 * (L : Int)) = 0) ∨ ((bx - ax) % (8 * (L : Int)) = 4 ∧ (by' - ay) % (8 * (L : Int)) = 8 * (L : Int) - 4)) := by
-  obtain ⟨c0, c2, c4, c6, n2, n4, n6⟩ := consts hL
+theorem oo1 (hx : 1 ≤ Lx) (hy : 1 ≤ Ly) (h4x : ((bx - ax) % (8 * (Lx : Int))) % 4 = 0)
+    (h4y : ((by' - ay) % (8 * (Ly : Int))) % 4 = 0) :
+    [(ax + 1) % (8 * (Lx : Int)), (ay + -3) % (8 * (Ly : Int))] ∈ ocC Lx Ly bx by' ↔
+      (((bx - ax) % (8 * (Lx : Int)) = 0 ∧ (by' - ay) % (8 * (Ly : Int)) = 0) ∨ ((bx - ax) % (8 * (Lx : Int)) = 4 ∧ (by' - ay) % (8 * (Ly : Int)) = 8 * (Ly : Int) - 4)) := by
+  obtain ⟨c0, c2, c4, c6, n2, n4, n6⟩ := consts hx
+  obtain ⟨d0, d2, d4, d6, m2, m4, m6⟩ := consts hy
   unfold ocC
   simp only [List.mem_cons, List.cons.injEq, and_true, List.not_mem_nil, or_false, emod_bridge,
     Int.reduceSub, Int.reduceNeg]
-  generalize (bx - ax) % (8 * (L : Int)) = ex at *
-  generalize (by' - ay) % (8 * (L : Int)) = ey at *
+  generalize (bx - ax) % (8 * (Lx : Int)) = ex at *
+  generalize (by' - ay) % (8 * (Ly : Int)) = ey at *
   omega
 
-theorem oo2 (hL : 1 ≤ L) (h4x : ((bx - ax) % (8 * (L : Int))) % 4 = 0)
-    (h4y : ((by' - ay) % (8 * (L : Int))) % 4 = 0) :
-    [(ax + 3) % (8 * (L : Int)), (ay + -1) % (8 * (L : Int))] ∈ ocC L bx by' ↔
-      (((bx - ax) % (8 * (L : Int)) = 0 ∧ (by' - ay) % (8 * (L : Int)) = 0) ∨ ((bx - ax) % (8 * (L : Int)) = 4 ∧ (by' - ay) % (8 * (L : Int)) = 8 * (L : Int) - 4)) := by
-  obtain ⟨c0, c2, c4, c6, n2, n4, n6⟩ := consts hL
+theorem oo2 (hx : 1 ≤ Lx) (hy : 1 ≤ Ly) (h4x : ((bx - ax) % (8 * (Lx : Int))) % 4 = 0)
+    (h4y : ((by' - ay) % (8 * (Ly : Int))) % 4 = 0) :
+    [(ax + 3) % (8 * (Lx : Int)), (ay + -1) % (8 * (Ly : Int))] ∈ ocC Lx Ly bx by' ↔
+      (((bx - ax) % (8 * (Lx : Int)) = 0 ∧ (by' - ay) % (8 * (Ly : Int)) = 0) ∨ ((bx - ax) % (8 * (Lx : Int)) = 4 ∧ (by' - ay) % (8 * (Ly : Int)) = 8 * (Ly : Int) - 4)) := by
+  obtain ⟨c0, c2, c4, c6, n2, n4, n6⟩ := consts hx
+  obtain ⟨d0, d2, d4, d6, m2, m4, m6⟩ := consts hy
   unfold ocC
   simp only [List.mem_cons, List.cons.injEq, and_true, List.not_mem_nil, or_false, emod_bridge,
     Int.reduceSub, Int.reduceNeg]
-  generalize (bx - ax) % (8 * (L : Int)) = ex at *
-  generalize (by' - ay) % (8 * (L : Int)) = ey at *
+  generalize (bx - ax) % (8 * (Lx : Int)) = ex at *
+  generalize (by' - ay) % (8 * (Ly : Int)) = ey at *
   omega
 
-theorem oo3 (hL : 1 ≤ L) (h4x : ((bx - ax) % (8 * (L : Int))) % 4 = 0)
-    (h4y : ((by' - ay) % (8 * (L : Int))) % 4 = 0) :
-    [(ax + 3) % (8 * (L : Int)), (ay + 1) % (8 * (L : Int))] ∈ ocC L bx by' ↔
-      (((bx - ax) % (8 * (L : Int)) = 0 ∧ (by' - ay) % (8 * (L : Int)) = 0) ∨ ((bx - ax) % (8 * (L : Int)) = 4 ∧ (by' - ay) % (8 * (L : Int)) = 4)) := by
-  obtain ⟨c0, c2, c4, c6, n2, n4, n6⟩ := consts hL
+theorem oo3 (hx : 1 ≤ Lx) (hy : 1 ≤ Ly) (h4x : ((bx - ax) % (8 * (Lx : Int))) % 4 = 0)
+    (h4y : ((by' - ay) % (8 * (Ly : Int))) % 4 = 0) :
+    [(ax + 3) % (8 * (Lx : Int)), (ay + 1) % (8 * (Ly : Int))] ∈ ocC Lx Ly bx by' ↔
+      (((bx - ax) % (8 * (Lx : Int)) = 0 ∧ (by' - ay) % (8 * (Ly : Int)) = 0) ∨ ((bx - ax) % (8 * (Lx : Int)) = 4 ∧ (by' - ay) % (8 * (Ly : Int)) = 4)) := by
+  obtain ⟨c0, c2, c4, c6, n2, n4, n6⟩ := consts hx
+  obtain ⟨d0, d2, d4, d6, m2, m4, m6⟩ := consts hy
   unfold ocC
   simp only [List.mem_cons, List.cons.injEq, and_true, List.not_mem_nil, or_false, emod_bridge,
     Int.reduceSub, Int.reduceNeg]
-  generalize (bx - ax) % (8 * (L : Int)) = ex at *
-  generalize (by' - ay) % (8 * (L : Int)) = ey at *
+  generalize (bx - ax) % (8 * (Lx : Int)) = ex at *
+  generalize (by' - ay) % (8 * (Ly : Int)) = ey at *
   omega
 
-theorem oo4 (hL : 1 ≤ L) (h4x : ((bx - ax) % (8 * (L : Int))) % 4 = 0)
-    (h4y : ((by' - ay) % (8 * (L : Int))) % 4 = 0) :
-    [(ax + 1) % (8 * (L : Int)), (ay + 3) % (8 * (L : Int))] ∈ ocC L bx by' ↔
-      (((bx - ax) % (8 * (L : Int)) = 0 ∧ (by' - ay) % (8 * (L : Int)) = 0) ∨ ((bx - ax) % (8 * (L : Int)) = 4 ∧ (by' - ay) % (8 * (L : Int)) = 4)) := by
-  obtain ⟨c0, c2, c4, c6, n2, n4, n6⟩ := consts hL
+theorem oo4 (hx : 1 ≤ Lx) (hy : 1 ≤ Ly) (h4x : ((bx - ax) % (8 * (Lx : Int))) % 4 = 0)
+    (h4y : ((by' - ay) % (8 * (Ly : Int))) % 4 = 0) :
+    [(ax + 1) % (8 * (Lx : Int)), (ay + 3) % (8 * (Ly : Int))] ∈ ocC Lx Ly bx by' ↔
+      (((bx - ax) % (8 * (Lx : Int)) = 0 ∧ (by' - ay) % (8 * (Ly : Int)) = 0) ∨ ((bx - ax) % (8 * (Lx : Int)) = 4 ∧ (by' - ay) % (8 * (Ly : Int)) = 4)) := by
+  obtain ⟨c0, c2, c4, c6, n2, n4, n6⟩ := consts hx
+  obtain ⟨d0, d2, d4, d6, m2, m4, m6⟩ := consts hy
   unfold ocC
   simp only [List.mem_cons, List.cons.injEq, and_true, List.not_mem_nil, or_false, emod_bridge,
     Int.reduceSub, Int.reduceNeg]
-  generalize (bx - ax) % (8 * (L : Int)) = ex at *
-  generalize (by' - ay) % (8 * (L : Int)) = ey at *
+  generalize (bx - ax) % (8 * (Lx : Int)) = ex at *
+  generalize (by' - ay) % (8 * (Ly : Int)) = ey at *
   omega
 
-theorem oo5 (hL : 1 ≤ L) (h4x : ((bx - ax) % (8 * (L : Int))) % 4 = 0)
-    (h4y : ((by' - ay) % (8 * (L : Int))) % 4 = 0) :
-    [(ax + -1) % (8 * (L : Int)), (ay + 3) % (8 * (L : Int))] ∈ ocC L bx by' ↔
-      (((bx - ax) % (8 * (L : Int)) = 8 * (L : Int) - 4 ∧ (by' - ay) % (8 * (L : Int)) = 4) ∨ ((bx - ax) % (8 * (L : Int)) = 0 ∧ (by' - ay) % (8 * (L : Int)) = 0)) := by
-  obtain ⟨c0, c2, c4, c6, n2, n4, n6⟩ := consts hL
+theorem oo5 (hx : 1 ≤ Lx) (hy : 1 ≤ Ly) (h4x : ((bx - ax) % (8 * (Lx : Int))) % 4 = 0)
+    (h4y : ((by' - ay) % (8 * (Ly : Int))) % 4 = 0) :
+    [(ax + -1) % (8 * (Lx : Int)), (ay + 3) % (8 * (Ly : Int))] ∈ ocC Lx Ly bx by' ↔
+      (((bx - ax) % (8 * (Lx : Int)) = 8 * (Lx : Int) - 4 ∧ (by' - ay) % (8 * (Ly : Int)) = 4) ∨ ((bx - ax) % (8 * (Lx : Int)) = 0 ∧ (by' - ay) % (8 * (Ly : Int)) = 0)) := by
+  obtain ⟨c0, c2, c4, c6, n2, n4, n6⟩ := consts hx
+  obtain ⟨d0, d2, d4, d6, m2, m4, m6⟩ := consts hy
   unfold ocC
   simp only [List.mem_cons, List.cons.injEq, and_true, List.not_mem_nil, or_false, emod_bridge,
     Int.reduceSub, Int.reduceNeg]
-  generalize (bx - ax) % (8 * (L : Int)) = ex at *
-  generalize (by' - ay) % (8 * (L : Int)) = ey at *
+  generalize (bx - ax) % (8 * (Lx : Int)) = ex at *
+  generalize (by' - ay) % (8 * (Ly : Int)) = ey at *
   omega
 
-theorem oo6 (hL : 1 ≤ L) (h4x : ((bx - ax) % (8 * (L : Int))) % 4 = 0)
-    (h4y : ((by' - ay) % (8 * (L : Int))) % 4 = 0) :
-    [(ax + -3) % (8 * (L : Int)), (ay + 1) % (8 * (L : Int))] ∈ ocC L bx by' ↔
-      (((bx - ax) % (8 * (L : Int)) = 8 * (L : Int) - 4 ∧ (by' - ay) % (8 * (L : Int)) = 4) ∨ ((bx - ax) % (8 * (L : Int)) = 0 ∧ (by' - ay) % (8 * (L : Int)) = 0)) := by
-  obtain ⟨c0, c2, c4, c6, n2, n4, n6⟩ := consts hL
+theorem oo6 (hx : 1 ≤ Lx) (hy : 1 ≤ Ly) (h4x : ((bx - ax) % (8 * (Lx : Int))) % 4 = 0)
+    (h4y : ((by' - ay) % (8 * (Ly : Int))) % 4 = 0) :
+    [(ax + -3) % (8 * (Lx : Int)), (ay + 1) % (8 * (Ly : Int))] ∈ ocC Lx Ly bx by' ↔
+      (((bx - ax) % (8 * (Lx : Int)) = 8 * (Lx : Int) - 4 ∧ (by' - ay) % (8 * (Ly : Int)) = 4) ∨ ((bx - ax) % (8 * (Lx : Int)) = 0 ∧ (by' - ay) % (8 * (Ly : Int)) = 0)) := by
+  obtain ⟨c0, c2, c4, c6, n2, n4, n6⟩ := consts hx
+  obtain ⟨d0, d2, d4, d6, m2, m4, m6⟩ := consts hy
   unfold ocC
   simp only [List.mem_cons, List.cons.injEq, and_true, List.not_mem_nil, or_false, emod_bridge,
     Int.reduceSub, Int.reduceNeg]
-  generalize (bx - ax) % (8 * (L : Int)) = ex at *
-  generalize (by' - ay) % (8 * (L : Int)) = ey at *
+  generalize (bx - ax) % (8 * (Lx : Int)) = ex at *
+  generalize (by' - ay) % (8 * (Ly : Int)) = ey at *
   omega
 
-theorem oo7 (hL : 1 ≤ L) (h4x : ((bx - ax) % (8 * (L : Int))) % 4 = 0)
-    (h4y : ((by' - ay) % (8 * (L : Int))) % 4 = 0) :
-    [(ax + -3) % (8 * (L : Int)), (ay + -1) % (8 * (L : Int))] ∈ ocC L bx by' ↔
-      (((bx - ax) % (8 * (L : Int)) = 8 * (L : Int) - 4 ∧ (by' - ay) % (8 * (L : Int)) = 8 * (L : Int) - 4) ∨ ((bx - ax) % (8 * (L : Int)) = 0 ∧ (by' - ay) % (8 * (L : Int)) = 0)) := by
-  obtain ⟨c0, c2, c4, c6, n2, n4, n6⟩ := consts hL
+theorem oo7 (hx : 1 ≤ Lx) (hy : 1 ≤ Ly) (h4x : ((bx - ax) % (8 * (Lx : Int))) % 4 = 0)
+    (h4y : ((by' - ay) % (8 * (Ly : Int))) % 4 = 0) :
+    [(ax + -3) % (8 * (Lx : Int)), (ay + -1) % (8 * (Ly : Int))] ∈ ocC Lx Ly bx by' ↔
+      (((bx - ax) % (8 * (Lx : Int)) = 8 * (Lx : Int) - 4 ∧ (by' - ay) % (8 * (Ly : Int)) = 8 * (Ly : Int) - 4) ∨ ((bx - ax) % (8 * (Lx : Int)) = 0 ∧ (by' - ay) % (8 * (Ly : Int)) = 0)) := by
+  obtain ⟨c0, c2, c4, c6, n2, n4, n6⟩ := consts hx
+  obtain ⟨d0, d2, d4, d6, m2, m4, m6⟩ := consts hy
   unfold ocC
   simp only [List.mem_cons, List.cons.injEq, and_true, List.not_mem_nil, or_false, emod_bridge,
     Int.reduceSub, Int.reduceNeg]
-  generalize (bx - ax) % (8 * (L : Int)) = ex at *
-  generalize (by' - ay) % (8 * (L : Int)) = ey at *
+  generalize (bx - ax) % (8 * (Lx : Int)) = ex at *
+  generalize (by' - ay) % (8 * (Ly : Int)) = ey at *
   omega
 
-theorem oo8 (hL : 1 ≤ L) (h4x : ((bx - ax) % (8 * (L : Int))) % 4 = 0)
-    (h4y : ((by' - ay) % (8 * (L : Int))) % 4 = 0) :
-    [(ax + -1) % (8 * (L : Int)), (ay + -3) % (8 * (L : Int))] ∈ ocC L bx by' ↔
-      (((bx - ax) % (8 * (L : Int)) = 8 * (L : Int) - 4 ∧ (by' - ay) % (8 * (L : Int)) = 8 * (L : Int) - 4) ∨ ((bx - ax) % (8 * (L : Int)) = 0 ∧ (by' - ay) % (8 * (L : Int)) = 0)) := by
-  obtain ⟨c0, c2, c4, c6, n2, n4, n6⟩ := consts hL
+theorem oo8 (hx : 1 ≤ Lx) (hy : 1 ≤ Ly) (h4x : ((bx - ax) % (8 * (Lx : Int))) % 4 = 0)
+    (h4y : ((by' - ay) % (8 * (Ly : Int))) % 4 = 0) :
+    [(ax + -1) % (8 * (Lx : Int)), (ay + -3) % (8 * (Ly : Int))] ∈ ocC Lx Ly bx by' ↔
+      (((bx - ax) % (8 * (Lx : Int)) = 8 * (Lx : Int) - 4 ∧ (by' - ay) % (8 * (Ly : Int)) = 8 * (Ly : Int) - 4) ∨ ((bx - ax) % (8 * (Lx : Int)) = 0 ∧ (by' - ay) % (8 * (Ly : Int)) = 0)) := by
+  obtain ⟨c0, c2, c4, c6, n2, n4, n6⟩ := consts hx
+  obtain ⟨d0, d2, d4, d6, m2, m4, m6⟩ := consts hy
   unfold ocC
   simp only [List.mem_cons, List.cons.injEq, and_true, List.not_mem_nil, or_false, emod_bridge,
     Int.reduceSub, Int.reduceNeg]
-  generalize (bx - ax) % (8 * (L : Int)) = ex at *
-  generalize (by' - ay) % (8 * (L : Int)) = ey at *
+  generalize (bx - ax) % (8 * (Lx : Int)) = ex at *
+  generalize (by' - ay) % (8 * (Ly : Int)) = ey at *
   omega
 
-theorem os1 (hL : 1 ≤ L) (h4x : ((bx - ax) % (8 * (L : Int))) % 4 = 0)
-    (h4y : ((by' - ay) % (8 * (L : Int))) % 4 = 0) :
-    [(ax + 1) % (8 * (L : Int)), (ay + -3) % (8 * (L : Int))] ∈ sqC L bx by' ↔
-      (((bx - ax) % (8 * (L : Int)) = 0 ∧ (by' - ay) % (8 * (L : Int)) = 8 * (L : Int) - 4)) := by
-  obtain ⟨c0, c2, c4, c6, n2, n4, n6⟩ := consts hL
+theorem os1 (hx : 1 ≤ Lx) (hy : 1 ≤ Ly) (h4x : ((bx - ax) % (8 * (Lx : Int))) % 4 = 0)
+    (h4y : ((by' - ay) % (8 * (Ly : Int))) % 4 = 0) :
+    [(ax + 1) % (8 * (Lx : Int)), (ay + -3) % (8 * (Ly : Int))] ∈ sqC Lx Ly bx by' ↔
+      (((bx - ax) % (8 * (Lx : Int)) = 0 ∧ (by' - ay) % (8 * (Ly : Int)) = 8 * (Ly : Int) - 4)) := by
+  obtain ⟨c0, c2, c4, c6, n2, n4, n6⟩ := consts hx
+  obtain ⟨d0, d2, d4, d6, m2, m4, m6⟩ := consts hy
   unfold sqC
   simp only [List.mem_cons, List.cons.injEq, and_true, List.not_mem_nil, or_false, emod_bridge,
     Int.reduceSub, Int.reduceNeg]
-  generalize (bx - ax) % (8 * (L : Int)) = ex at *
-  generalize (by' - ay) % (8 * (L : Int)) = ey at *
+  generalize (bx - ax) % (8 * (Lx : Int)) = ex at *
+  generalize (by' - ay) % (8 * (Ly : Int)) = ey at *
   omega
 
-theorem os2 (hL : 1 ≤ L) (h4x : ((bx - ax) % (8 * (L : Int))) % 4 = 0)
-    (h4y : ((by' - ay) % (8 * (L : Int))) % 4 = 0) :
-    [(ax + 3) % (8 * (L : Int)), (ay + -1) % (8 * (L : Int))] ∈ sqC L bx by' ↔
-      (((bx - ax) % (8 * (L : Int)) = 4 ∧ (by' - ay) % (8 * (L : Int)) = 0)) := by
-  obtain ⟨c0, c2, c4, c6, n2, n4, n6⟩ := consts hL
+theorem os2 (hx : 1 ≤ Lx) (hy : 1 ≤ Ly) (h4x : ((bx - ax) % (8 * (Lx : Int))) % 4 = 0)
+    (h4y : ((by' - ay) % (8 * (Ly : Int))) % 4 = 0) :
+    [(ax + 3) % (8 * (Lx : Int)), (ay + -1) % (8 * (Ly : Int))] ∈ sqC Lx Ly bx by' ↔
+      (((bx - ax) % (8 * (Lx : Int)) = 4 ∧ (by' - ay) % (8 * (Ly : Int)) = 0)) := by
+  obtain ⟨c0, c2, c4, c6, n2, n4, n6⟩ := consts hx
+  obtain ⟨d0, d2, d4, d6, m2, m4, m6⟩ := consts hy
   unfold sqC
   simp only [List.mem_cons, List.cons.injEq, and_true, List.not_mem_nil, or_false, emod_bridge,
     Int.reduceSub, Int.reduceNeg]
-  generalize (bx - ax) % (8 * (L : Int)) = ex at *
-  generalize (by' - ay) % (8 * (L : Int)) = ey at *
+  generalize (bx - ax) % (8 * (Lx : Int)) = ex at *
+  generalize (by' - ay) % (8 * (Ly : Int)) = ey at *
   omega
 
-theorem os3 (hL : 1 ≤ L) (h4x : ((bx - ax) % (8 * (L : Int))) % 4 = 0)
-    (h4y : ((by' - ay) % (8 * (L : Int))) % 4 = 0) :
-    [(ax + 3) % (8 * (L : Int)), (ay + 1) % (8 * (L : Int))] ∈ sqC L bx by' ↔
-      (((bx - ax) % (8 * (L : Int)) = 4 ∧ (by' - ay) % (8 * (L : Int)) = 0)) := by
-  obtain ⟨c0, c2, c4, c6, n2, n4, n6⟩ := consts hL
+theorem os3 (hx : 1 ≤ Lx) (hy : 1 ≤ Ly) (h4x : ((bx - ax) % (8 * (Lx : Int))) % 4 = 0)
+    (h4y : ((by' - ay) % (8 * (Ly : Int))) % 4 = 0) :
+    [(ax + 3) % (8 * (Lx : Int)), (ay + 1) % (8 * (Ly : Int))] ∈ sqC Lx Ly bx by' ↔
+      (((bx - ax) % (8 * (Lx : Int)) = 4 ∧ (by' - ay) % (8 * (Ly : Int)) = 0)) := by
+  obtain ⟨c0, c2, c4, c6, n2, n4, n6⟩ := consts hx
+  obtain ⟨d0, d2, d4, d6, m2, m4, m6⟩ := consts hy
   unfold sqC
   simp only [List.mem_cons, List.cons.injEq, and_true, List.not_mem_nil, or_false, emod_bridge,
     Int.reduceSub, Int.reduceNeg]
-  generalize (bx - ax) % (8 * (L : Int)) = ex at *
-  generalize (by' - ay) % (8 * (L : Int)) = ey at *
+  generalize (bx - ax) % (8 * (Lx : Int)) = ex at *
+  generalize (by' - ay) % (8 * (Ly : Int)) = ey at *
   omega
 
-theorem os4 (hL : 1 ≤ L) (h4x : ((bx - ax) % (8 * (L : Int))) % 4 = 0)
-    (h4y : ((by' - ay) % (8 * (L : Int))) % 4 = 0) :
-    [(ax + 1) % (8 * (L : Int)), (ay + 3) % (8 * (L : Int))] ∈ sqC L bx by' ↔
-      (((bx - ax) % (8 * (L : Int)) = 0 ∧ (by' - ay) % (8 * (L : Int)) = 4)) := by
-  obtain ⟨c0, c2, c4, c6, n2, n4, n6⟩ := consts hL
+theorem os4 (hx : 1 ≤ Lx) (hy : 1 ≤ Ly) (h4x : ((bx - ax) % (8 * (Lx : Int))) % 4 = 0)
+    (h4y : ((by' - ay) % (8 * (Ly : Int))) % 4 = 0) :
+    [(ax + 1) % (8 * (Lx : Int)), (ay + 3) % (8 * (Ly : Int))] ∈ sqC Lx Ly bx by' ↔
+      (((bx - ax) % (8 * (Lx : Int)) = 0 ∧ (by' - ay) % (8 * (Ly : Int)) = 4)) := by
+  obtain ⟨c0, c2, c4, c6, n2, n4, n6⟩ := consts hx
+  obtain ⟨d0, d2, d4, d6, m2, m4, m6⟩ := consts hy
   unfold sqC
   simp only [List.mem_cons, List.cons.injEq, and_true, List.not_mem_nil, or_false, emod_bridge,
     Int.reduceSub, Int.reduceNeg]
-  generalize (bx - ax) % (8 * (L : Int)) = ex at *
-  generalize (by' - ay) % (8 * (L : Int)) = ey at *
+  generalize (bx - ax) % (8 * (Lx : Int)) = ex at *
+  generalize (by' - ay) % (8 * (Ly : Int)) = ey at *
   omega
 
-theorem os5 (hL : 1 ≤ L) (h4x : ((bx - ax) % (8 * (L : Int))) % 4 = 0)
-    (h4y : ((by' - ay) % (8 * (L : Int))) % 4 = 0) :
-    [(ax + -1) % (8 * (L : Int)), (ay + 3) % (8 * (L : Int))] ∈ sqC L bx by' ↔
-      (((bx - ax) % (8 * (L : Int)) = 0 ∧ (by' - ay) % (8 * (L : Int)) = 4)) := by
-  obtain ⟨c0, c2, c4, c6, n2, n4, n6⟩ := consts hL
+theorem os5 (hx : 1 ≤ Lx) (hy : 1 ≤ Ly) (h4x : ((bx - ax) % (8 * (Lx : Int))) % 4 = 0)
+    (h4y : ((by' - ay) % (8 * (Ly : Int))) % 4 = 0) :
+    [(ax + -1) % (8 * (Lx : Int)), (ay + 3) % (8 * (Ly : Int))] ∈ sqC Lx Ly bx by' ↔
+      (((bx - ax) % (8 * (Lx : Int)) = 0 ∧ (by' - ay) % (8 * (Ly : Int)) = 4)) := by
+  obtain ⟨c0, c2, c4, c6, n2, n4, n6⟩ := consts hx
+  obtain ⟨d0, d2, d4, d6, m2, m4, m6⟩ := consts hy
   unfold sqC
   simp only [List.mem_cons, List.cons.injEq, and_true, List.not_mem_nil, or_false, emod_bridge,
     Int.reduceSub, Int.reduceNeg]
-  generalize (bx - ax) % (8 * (L : Int)) = ex at *
-  generalize (by' - ay) % (8 * (L : Int)) = ey at *
+  generalize (bx - ax) % (8 * (Lx : Int)) = ex at *
+  generalize (by' - ay) % (8 * (Ly : Int)) = ey at *
   omega
 
-theorem os6 (hL : 1 ≤ L) (h4x : ((bx - ax) % (8 * (L : Int))) % 4 = 0)
-    (h4y : ((by' - ay) % (8 * (L : Int))) % 4 = 0) :
-    [(ax + -3) % (8 * (L : Int)), (ay + 1) % (8 * (L : Int))] ∈ sqC L bx by' ↔
-      (((bx - ax) % (8 * (L : Int)) = 8 * (L : Int) - 4 ∧ (by' - ay) % (8 * (L : Int)) = 0)) := by
-  obtain ⟨c0, c2, c4, c6, n2, n4, n6⟩ := consts hL
+theorem os6 (hx : 1 ≤ Lx) (hy : 1 ≤ Ly) (h4x : ((bx - ax) % (8 * (Lx : Int))) % 4 = 0)
+    (h4y : ((by' - ay) % (8 * (Ly : Int))) % 4 = 0) :
+    [(ax + -3) % (8 * (Lx : Int)), (ay + 1) % (8 * (Ly : Int))] ∈ sqC Lx Ly bx by' ↔
+      (((bx - ax) % (8 * (Lx : Int)) = 8 * (Lx : Int) - 4 ∧ (by' - ay) % (8 * (Ly : Int)) = 0)) := by
+  obtain ⟨c0, c2, c4, c6, n2, n4, n6⟩ := consts hx
+  obtain ⟨d0, d2, d4, d6, m2, m4, m6⟩ := consts hy
   unfold sqC
   simp only [List.mem_cons, List.cons.injEq, and_true, List.not_mem_nil, or_false, emod_bridge,
     Int.reduceSub, Int.reduceNeg]
-  generalize (bx - ax) % (8 * (L : Int)) = ex at *
-  generalize (by' - ay) % (8 * (L : Int)) = ey at *
+  generalize (bx - ax) % (8 * (Lx : Int)) = ex at *
+  generalize (by' - ay) % (8 * (Ly : Int)) = ey at *
   omega
 
-theorem os7 (hL : 1 ≤ L) (h4x : ((bx - ax) % (8 * (L : Int))) % 4 = 0)
-    (h4y : ((by' - ay) % (8 * (L : Int))) % 4 = 0) :
-    [(ax + -3) % (8 * (L : Int)), (ay + -1) % (8 * (L : Int))] ∈ sqC L bx by' ↔
-      (((bx - ax) % (8 * (L : Int)) = 8 * (L : Int) - 4 ∧ (by' - ay) % (8 * (L : Int)) = 0)) := by
-  obtain ⟨c0, c2, c4, c6, n2, n4, n6⟩ := consts hL
+theorem os7 (hx : 1 ≤ Lx) (hy : 1 ≤ Ly) (h4x : ((bx - ax) % (8 * (Lx : Int))) % 4 = 0)
+    (h4y : ((by' - ay) % (8 * (Ly : Int))) % 4 = 0) :
+    [(ax + -3) % (8 * (Lx : Int)), (ay + -1) % (8 * (Ly : Int))] ∈ sqC Lx Ly bx by' ↔
+      (((bx - ax) % (8 * (Lx : Int)) = 8 * (Lx : Int) - 4 ∧ (by' - ay) % (8 * (Ly : Int)) = 0)) := by
+  obtain ⟨c0, c2, c4, c6, n2, n4, n6⟩ := consts hx
+  obtain ⟨d0, d2, d4, d6, m2, m4, m6⟩ := consts hy
   unfold sqC
   simp only [List.mem_cons, List.cons.injEq, and_true, List.not_mem_nil, or_false, emod_bridge,
     Int.reduceSub, Int.reduceNeg]
-  generalize (bx - ax) % (8 * (L : Int)) = ex at *
-  generalize (by' - ay) % (8 * (L : Int)) = ey at *
+  generalize (bx - ax) % (8 * (Lx : Int)) = ex at *
+  generalize (by' - ay) % (8 * (Ly : Int)) = ey at *
   omega
 
-theorem os8 (hL : 1 ≤ L) (h4x : ((bx - ax) % (8 * (L : Int))) % 4 = 0)
-    (h4y : ((by' - ay) % (8 * (L : Int))) % 4 = 0) :
-    [(ax + -1) % (8 * (L : Int)), (ay + -3) % (8 * (L : Int))] ∈ sqC L bx by' ↔
-      (((bx - ax) % (8 * (L : Int)) = 0 ∧ (by' - ay) % (8 * (L : Int)) = 8 * (L : Int) - 4)) := by
-  obtain ⟨c0, c2, c4, c6, n2, n4, n6⟩ := consts hL
+theorem os8 (hx : 1 ≤ Lx) (hy : 1 ≤ Ly) (h4x : ((bx - ax) % (8 * (Lx : Int))) % 4 = 0)
+    (h4y : ((by' - ay) % (8 * (Ly : Int))) % 4 = 0) :
+    [(ax + -1) % (8 * (Lx : Int)), (ay + -3) % (8 * (Ly : Int))] ∈ sqC Lx Ly bx by' ↔
+      (((bx - ax) % (8 * (Lx : Int)) = 0 ∧ (by' - ay) % (8 * (Ly : Int)) = 8 * (Ly : Int) - 4)) := by
+  obtain ⟨c0, c2, c4, c6, n2, n4, n6⟩ := consts hx
+  obtain ⟨d0, d2, d4, d6, m2, m4, m6⟩ := consts hy
   unfold sqC
   simp only [List.mem_cons, List.cons.injEq, and_true, List.not_mem_nil, or_false, emod_bridge,
     Int.reduceSub, Int.reduceNeg]
-  generalize (bx - ax) % (8 * (L : Int)) = ex at *
-  generalize (by' - ay) % (8 * (L : Int)) = ey at *
+  generalize (bx - ax) % (8 * (Lx : Int)) = ex at *
+  generalize (by' - ay) % (8 * (Ly : Int)) = ey at *
   omega
 
-theorem ss1 (hL : 1 ≤ L) (h4x : ((bx - ax) % (8 * (L : Int))) % 4 = 0)
-    (h4y : ((by' - ay) % (8 * (L : Int))) % 4 = 0) :
-    [(ax + -1) % (8 * (L : Int)), (ay + -1) % (8 * (L : Int))] ∈ sqC L bx by' ↔
-      (((bx - ax) % (8 * (L : Int)) = 0 ∧ (by' - ay) % (8 * (L : Int)) = 0)) := by
-  obtain ⟨c0, c2, c4, c6, n2, n4, n6⟩ := consts hL
+theorem ss1 (hx : 1 ≤ Lx) (hy : 1 ≤ Ly) (h4x : ((bx - ax) % (8 * (Lx : Int))) % 4 = 0)
+    (h4y : ((by' - ay) % (8 * (Ly : Int))) % 4 = 0) :
+    [(ax + -1) % (8 * (Lx : Int)), (ay + -1) % (8 * (Ly : Int))] ∈ sqC Lx Ly bx by' ↔
+      (((bx - ax) % (8 * (Lx : Int)) = 0 ∧ (by' - ay) % (8 * (Ly : Int)) = 0)) := by
+  obtain ⟨c0, c2, c4, c6, n2, n4, n6⟩ := consts hx
+  obtain ⟨d0, d2, d4, d6, m2, m4, m6⟩ := consts hy
   unfold sqC
   simp only [List.mem_cons, List.cons.injEq, and_true, List.not_mem_nil, or_false, emod_bridge,
     Int.reduceSub, Int.reduceNeg]
-  generalize (bx - ax) % (8 * (L : Int)) = ex at *
-  generalize (by' - ay) % (8 * (L : Int)) = ey at *
+  generalize (bx - ax) % (8 * (Lx : Int)) = ex at *
+  generalize (by' - ay) % (8 * (Ly : Int)) = ey at *
   omega
 
-theorem ss2 (hL : 1 ≤ L) (h4x : ((bx - ax) % (8 * (L : Int))) % 4 = 0)
-    (h4y : ((by' - ay) % (8 * (L : Int))) % 4 = 0) :
-    [(ax + 1) % (8 * (L : Int)), (ay + 1) % (8 * (L : Int))] ∈ sqC L bx by' ↔
-      (((bx - ax) % (8 * (L : Int)) = 0 ∧ (by' - ay) % (8 * (L : Int)) = 0)) := by
-  obtain ⟨c0, c2, c4, c6, n2, n4, n6⟩ := consts hL
+theorem ss2 (hx : 1 ≤ Lx) (hy : 1 ≤ Ly) (h4x : ((bx - ax) % (8 * (Lx : Int))) % 4 = 0)
+    (h4y : ((by' - ay) % (8 * (Ly : Int))) % 4 = 0) :
+    [(ax + 1) % (8 * (Lx : Int)), (ay + 1) % (8 * (Ly : Int))] ∈ sqC Lx Ly bx by' ↔
+      (((bx - ax) % (8 * (Lx : Int)) = 0 ∧ (by' - ay) % (8 * (Ly : Int)) = 0)) := by
+  obtain ⟨c0, c2, c4, c6, n2, n4, n6⟩ := consts hx
+  obtain ⟨d0, d2, d4, d6, m2, m4, m6⟩ := consts hy
   unfold sqC
   simp only [List.mem_cons, List.cons.injEq, and_true, List.not_mem_nil, or_false, emod_bridge,
     Int.reduceSub, Int.reduceNeg]
-  generalize (bx - ax) % (8 * (L : Int)) = ex at *
-  generalize (by' - ay) % (8 * (L : Int)) = ey at *
+  generalize (bx - ax) % (8 * (Lx : Int)) = ex at *
+  generalize (by' - ay) % (8 * (Ly : Int)) = ey at *
   omega
 
-theorem ss3 (hL : 1 ≤ L) (h4x : ((bx - ax) % (8 * (L : Int))) % 4 = 0)
-    (h4y : ((by' - ay) % (8 * (L : Int))) % 4 = 0) :
-    [(ax + -1) % (8 * (L : Int)), (ay + 1) % (8 * (L : Int))] ∈ sqC L bx by' ↔
-      (((bx - ax) % (8 * (L : Int)) = 0 ∧ (by' - ay) % (8 * (L : Int)) = 0)) := by
-  obtain ⟨c0, c2, c4, c6, n2, n4, n6⟩ := consts hL
+theorem ss3 (hx : 1 ≤ Lx) (hy : 1 ≤ Ly) (h4x : ((bx - ax) % (8 * (Lx : Int))) % 4 = 0)
+    (h4y : ((by' - ay) % (8 * (Ly : Int))) % 4 = 0) :
+    [(ax + -1) % (8 * (Lx : Int)), (ay + 1) % (8 * (Ly : Int))] ∈ sqC Lx Ly bx by' ↔
+      (((bx - ax) % (8 * (Lx : Int)) = 0 ∧ (by' - ay) % (8 * (Ly : Int)) = 0)) := by
+  obtain ⟨c0, c2, c4, c6, n2, n4, n6⟩ := consts hx
+  obtain ⟨d0, d2, d4, d6, m2, m4, m6⟩ := consts hy
   unfold sqC
   simp only [List.mem_cons, List.cons.injEq, and_true, List.not_mem_nil, or_false, emod_bridge,
     Int.reduceSub, Int.reduceNeg]
-  generalize (bx - ax) % (8 * (L : Int)) = ex at *
-  generalize (by' - ay) % (8 * (L : Int)) = ey at *
+  generalize (bx - ax) % (8 * (Lx : Int)) = ex at *
+  generalize (by' - ay) % (8 * (Ly : Int)) = ey at *
   omega
 
-theorem ss4 (hL : 1 ≤ L) (h4x : ((bx - ax) % (8 * (L : Int))) % 4 = 0)
-    (h4y : ((by' - ay) % (8 * (L : Int))) % 4 = 0) :
-    [(ax + 1) % (8 * (L : Int)), (ay + -1) % (8 * (L : Int))] ∈ sqC L bx by' ↔
-      (((bx - ax) % (8 * (L : Int)) = 0 ∧ (by' - ay) % (8 * (L : Int)) = 0)) := by
-  obtain ⟨c0, c2, c4, c6, n2, n4, n6⟩ := consts hL
+theorem ss4 (hx : 1 ≤ Lx) (hy : 1 ≤ Ly) (h4x : ((bx - ax) % (8 * (Lx : Int))) % 4 = 0)
+    (h4y : ((by' - ay) % (8 * (Ly : Int))) % 4 = 0) :
+    [(ax + 1) % (8 * (Lx : Int)), (ay + -1) % (8 * (Ly : Int))] ∈ sqC Lx Ly bx by' ↔
+      (((bx - ax) % (8 * (Lx : Int)) = 0 ∧ (by' - ay) % (8 * (Ly : Int)) = 0)) := by
+  obtain ⟨c0, c2, c4, c6, n2, n4, n6⟩ := consts hx
+  obtain ⟨d0, d2, d4, d6, m2, m4, m6⟩ := consts hy
   unfold sqC
   simp only [List.mem_cons, List.cons.injEq, and_true, List.not_mem_nil, or_false, emod_bridge,
     Int.reduceSub, Int.reduceNeg]
-  generalize (bx - ax) % (8 * (L : Int)) = ex at *
-  generalize (by' - ay) % (8 * (L : Int)) = ey at *
+  generalize (bx - ax) % (8 * (Lx : Int)) = ex at *
+  generalize (by' - ay) % (8 * (Ly : Int)) = ey at *
   omega
 
 /-! corners of a square `a` in an octagon `b` (used by the rank certificate) -/
 
-theorem so1 (hL : 1 ≤ L) (h4x : ((bx - ax) % (8 * (L : Int))) % 4 = 0)
-    (h4y : ((by' - ay) % (8 * (L : Int))) % 4 = 0) :
-    [(ax + -1) % (8 * (L : Int)), (ay + -1) % (8 * (L : Int))] ∈ ocC L bx by' ↔
-      (((bx - ax) % (8 * (L : Int)) = 8 * (L : Int) - 4 ∧ (by' - ay) % (8 * (L : Int)) = 0) ∨ ((bx - ax) % (8 * (L : Int)) = 0 ∧ (by' - ay) % (8 * (L : Int)) = 8 * (L : Int) - 4)) := by
-  obtain ⟨c0, c2, c4, c6, n2, n4, n6⟩ := consts hL
+theorem so1 (hx : 1 ≤ Lx) (hy : 1 ≤ Ly) (h4x : ((bx - ax) % (8 * (Lx : Int))) % 4 = 0)
+    (h4y : ((by' - ay) % (8 * (Ly : Int))) % 4 = 0) :
+    [(ax + -1) % (8 * (Lx : Int)), (ay + -1) % (8 * (Ly : Int))] ∈ ocC Lx Ly bx by' ↔
+      (((bx - ax) % (8 * (Lx : Int)) = 8 * (Lx : Int) - 4 ∧ (by' - ay) % (8 * (Ly : Int)) = 0) ∨ ((bx - ax) % (8 * (Lx : Int)) = 0 ∧ (by' - ay) % (8 * (Ly : Int)) = 8 * (Ly : Int) - 4)) := by
+  obtain ⟨c0, c2, c4, c6, n2, n4, n6⟩ := consts hx
+  obtain ⟨d0, d2, d4, d6, m2, m4, m6⟩ := consts hy
   unfold ocC
   simp only [List.mem_cons, List.cons.injEq, and_true, List.not_mem_nil, or_false, emod_bridge,
     Int.reduceSub, Int.reduceNeg]
-  generalize (bx - ax) % (8 * (L : Int)) = ex at *
-  generalize (by' - ay) % (8 * (L : Int)) = ey at *
+  generalize (bx - ax) % (8 * (Lx : Int)) = ex at *
+  generalize (by' - ay) % (8 * (Ly : Int)) = ey at *
   omega
 
-theorem so2 (hL : 1 ≤ L) (h4x : ((bx - ax) % (8 * (L : Int))) % 4 = 0)
-    (h4y : ((by' - ay) % (8 * (L : Int))) % 4 = 0) :
-    [(ax + 1) % (8 * (L : Int)), (ay + 1) % (8 * (L : Int))] ∈ ocC L bx by' ↔
-      (((bx - ax) % (8 * (L : Int)) = 0 ∧ (by' - ay) % (8 * (L : Int)) = 4) ∨ ((bx - ax) % (8 * (L : Int)) = 4 ∧ (by' - ay) % (8 * (L : Int)) = 0)) := by
-  obtain ⟨c0, c2, c4, c6, n2, n4, n6⟩ := consts hL
+theorem so2 (hx : 1 ≤ Lx) (hy : 1 ≤ Ly) (h4x : ((bx - ax) % (8 * (Lx : Int))) % 4 = 0)
+    (h4y : ((by' - ay) % (8 * (Ly : Int))) % 4 = 0) :
+    [(ax + 1) % (8 * (Lx : Int)), (ay + 1) % (8 * (Ly : Int))] ∈ ocC Lx Ly bx by' ↔
+      (((bx - ax) % (8 * (Lx : Int)) = 0 ∧ (by' - ay) % (8 * (Ly : Int)) = 4) ∨ ((bx - ax) % (8 * (Lx : Int)) = 4 ∧ (by' - ay) % (8 * (Ly : Int)) = 0)) := by
+  obtain ⟨c0, c2, c4, c6, n2, n4, n6⟩ := consts hx
+  obtain ⟨d0, d2, d4, d6, m2, m4, m6⟩ := consts hy
   unfold ocC
   simp only [List.mem_cons, List.cons.injEq, and_true, List.not_mem_nil, or_false, emod_bridge,
     Int.reduceSub, Int.reduceNeg]
-  generalize (bx - ax) % (8 * (L : Int)) = ex at *
-  generalize (by' - ay) % (8 * (L : Int)) = ey at *
+  generalize (bx - ax) % (8 * (Lx : Int)) = ex at *
+  generalize (by' - ay) % (8 * (Ly : Int)) = ey at *
   omega
 
-theorem so3 (hL : 1 ≤ L) (h4x : ((bx - ax) % (8 * (L : Int))) % 4 = 0)
-    (h4y : ((by' - ay) % (8 * (L : Int))) % 4 = 0) :
-    [(ax + -1) % (8 * (L : Int)), (ay + 1) % (8 * (L : Int))] ∈ ocC L bx by' ↔
-      (((bx - ax) % (8 * (L : Int)) = 8 * (L : Int) - 4 ∧ (by' - ay) % (8 * (L : Int)) = 0) ∨ ((bx - ax) % (8 * (L : Int)) = 0 ∧ (by' - ay) % (8 * (L : Int)) = 4)) := by
-  obtain ⟨c0, c2, c4, c6, n2, n4, n6⟩ := consts hL
+theorem so3 (hx : 1 ≤ Lx) (hy : 1 ≤ Ly) (h4x : ((bx - ax) % (8 * (Lx : Int))) % 4 = 0)
+    (h4y : ((by' - ay) % (8 * (Ly : Int))) % 4 = 0) :
+    [(ax + -1) % (8 * (Lx : Int)), (ay + 1) % (8 * (Ly : Int))] ∈ ocC Lx Ly bx by' ↔
+      (((bx - ax) % (8 * (Lx : Int)) = 8 * (Lx : Int) - 4 ∧ (by' - ay) % (8 * (Ly : Int)) = 0) ∨ ((bx - ax) % (8 * (Lx : Int)) = 0 ∧ (by' - ay) % (8 * (Ly : Int)) = 4)) := by
+  obtain ⟨c0, c2, c4, c6, n2, n4, n6⟩ := consts hx
+  obtain ⟨d0, d2, d4, d6, m2, m4, m6⟩ := consts hy
   unfold ocC
   simp only [List.mem_cons, List.cons.injEq, and_true, List.not_mem_nil, or_false, emod_bridge,
     Int.reduceSub, Int.reduceNeg]
-  generalize (bx - ax) % (8 * (L : Int)) = ex at *
-  generalize (by' - ay) % (8 * (L : Int)) = ey at *
+  generalize (bx - ax) % (8 * (Lx : Int)) = ex at *
+  generalize (by' - ay) % (8 * (Ly : Int)) = ey at *
   omega
 
-theorem so4 (hL : 1 ≤ L) (h4x : ((bx - ax) % (8 * (L : Int))) % 4 = 0)
-    (h4y : ((by' - ay) % (8 * (L : Int))) % 4 = 0) :
-    [(ax + 1) % (8 * (L : Int)), (ay + -1) % (8 * (L : Int))] ∈ ocC L bx by' ↔
-      (((bx - ax) % (8 * (L : Int)) = 0 ∧ (by' - ay) % (8 * (L : Int)) = 8 * (L : Int) - 4) ∨ ((bx - ax) % (8 * (L : Int)) = 4 ∧ (by' - ay) % (8 * (L : Int)) = 0)) := by
-  obtain ⟨c0, c2, c4, c6, n2, n4, n6⟩ := consts hL
+theorem so4 (hx : 1 ≤ Lx) (hy : 1 ≤ Ly) (h4x : ((bx - ax) % (8 * (Lx : Int))) % 4 = 0)
+    (h4y : ((by' - ay) % (8 * (Ly : Int))) % 4 = 0) :
+    [(ax + 1) % (8 * (Lx : Int)), (ay + -1) % (8 * (Ly : Int))] ∈ ocC Lx Ly bx by' ↔
+      (((bx - ax) % (8 * (Lx : Int)) = 0 ∧ (by' - ay) % (8 * (Ly : Int)) = 8 * (Ly : Int) - 4) ∨ ((bx - ax) % (8 * (Lx : Int)) = 4 ∧ (by' - ay) % (8 * (Ly : Int)) = 0)) := by
+  obtain ⟨c0, c2, c4, c6, n2, n4, n6⟩ := consts hx
+  obtain ⟨d0, d2, d4, d6, m2, m4, m6⟩ := consts hy
   unfold ocC
   simp only [List.mem_cons, List.cons.injEq, and_true, List.not_mem_nil, or_false, emod_bridge,
     Int.reduceSub, Int.reduceNeg]
-  generalize (bx - ax) % (8 * (L : Int)) = ex at *
-  generalize (by' - ay) % (8 * (L : Int)) = ey at *
+  generalize (bx - ax) % (8 * (Lx : Int)) = ex at *
+  generalize (by' - ay) % (8 * (Ly : Int)) = ey at *
   omega
 
 end
